@@ -96,4 +96,19 @@ PROPS = {
                                      "completeness ('helper assertions are accepted') is checked by the correspondence stream only, not proved"],
         "assumptions": ["no client is registered with an empty client id"],
     },
+    "C05": {
+        "proof_module": "OidcModel.Proofs.C05",
+        "theorems": ["C05.legacyVerifyClient_ok", "C05.withClient_grant", "C05.authorizeTokenExchangeClient_ok",
+                     "C05.authorizeClientCredentialsClient_ok", "C05.secret_ok", "C04.authorizeCodeClient_ok",
+                     "C07.authorizeRefreshClient_ok", "C14.c14_private_key_client"],
+        "cases": {"quick": 2500, "thorough": 40000},
+        "rule": "one request per case against a fresh provider: router x op.Config flags (post, private_key_jwt, refresh) x storage capabilities (client credentials, "
+                "token exchange, device) x endpoint (token with each of 6 grants, introspection, revocation, device_authorization) x 8 registrations (basic x2, public, "
+                "post, private_key_jwt, without refresh grant, without code grant, code+refresh only) x presentation (right, wrong secret, none, id only, post body, "
+                "malformed percent-escape in Basic, forged / expired assertion, unknown client, another client's credentials); the artefacts (code, refresh token, "
+                "device code, subject token) are valid for the named client so that only authentication and grant registration decide; non-trivial = not the modal class",
+        "trivial_class": r".*refused:invalid_client",
+        "trusted_base": COMMON_TB + ["the request dispatch (tokensHandler / Exchange switch, ClientIDFromRequest, ParseTokenRevocationRequest) is not modelled: it is covered by the monitor on the real handlers only"],
+        "assumptions": ["presenting a client_secret_basic secret in the POST body is not treated as a violation (the code accepts it)"],
+    },
 }
